@@ -431,17 +431,38 @@ func GuardEdges(fn *ssa.Function, calls []ssa.CallInstruction, oc Outcome) (ok, 
 		for i := 0; i < 2; i++ {
 			a := condAtom(ifi.Cond, i == 0)
 			o, idx := origin(a.X)
-			c, found := want[key{o, idx}]
-			if !found {
+			var matched []ssa.CallInstruction
+			if c, found := want[key{o, idx}]; found {
+				matched = []ssa.CallInstruction{c}
+			} else if phi, isPhi := o.(*ssa.Phi); isPhi {
+				// err = f() in one branch, err = g() in the other, tested after the merge
+				all := true
+				for _, e := range phi.Edges {
+					eo, ei := origin(e)
+					if c, found := want[key{eo, ei}]; found {
+						matched = append(matched, c)
+					} else {
+						all = false
+					}
+				}
+				if !all {
+					matched = nil
+				}
+			}
+			if len(matched) == 0 {
 				continue
 			}
 			switch atomOutcome(a, oc) {
 			case 1:
 				ok = append(ok, Edge{b, i})
-				tested[c] = true
+				for _, c := range matched {
+					tested[c] = true
+				}
 			case -1:
 				fail = append(fail, Edge{b, i})
-				tested[c] = true
+				for _, c := range matched {
+					tested[c] = true
+				}
 			}
 		}
 	}
